@@ -130,7 +130,7 @@ class Ctx:
             dfid=None, heap=None, extra=None, stdout_to=None, deadlock=True, seed=None, props=None, queue_dfs=False):
         d = self.specdir()
         meta = tempfile.mkdtemp(prefix="meta-", dir=self.scratch)
-        java = ["java", "-XX:+UseParallelGC", "-Xss64m"]
+        java = ["java", "-XX:+UseParallelGC", "-Xss64m", "-Djava.io.tmpdir=%s" % meta]   # TLC's own temporary directories go with the scratch
         if heap:
             java.append("-Xmx%s" % heap)
         if queue_dfs:
